@@ -99,3 +99,24 @@ PROPS["C08"] = dict(
     technique="Lean 4 proof (induction over histories, floor arithmetic over ℚ) + correspondence of the exact-arithmetic model against the implementation",
     assumptions=["edges are unique shortest lines (ambiguous 180° edges are excluded from the metamorphic oracles, as the statement allows)"],
 )
+
+PROPS["C20"] = dict(
+    harnesses=[dict(name="C20", procs_quick=2, procs_thorough=16)],
+    rule=("synthetic PGM rasters written by the harness (even width 2..16 quick / ..80 thorough, odd height 3..9 / ..41, random / ramp / zonal pixels, "
+          "several offsets and scales), bilinear and cubic, plain and thread-safe objects; histories (≤ 40 quick / ≤ 200 thorough ops) of height "
+          "queries interleaved with CacheArea / CacheAll / CacheClear; positions at nodes, on cell edges, poles, lon 0/±180/±360/540 ±ulp, repeated "
+          "cells, neighbouring cells, polar caps next to ±180, NaN and out-of-range latitudes; cache windows straddling lon 0 and reaching the poles, "
+          "south>north (clear); structured malformed headers. non-trivial = finite height returned; distinct = distinct (op, leading argument bits)"),
+    tolerances={"history / cache-mode independence": "bit-for-bit (implementation vs fresh and thread-safe objects)",
+                "height vs model": "bit-equal to the F64 model or within 2^-50·(|offset|+65535·scale)", "header accept/reject": "exact"},
+    level_text=("Theorems (all op sequences, all rasters): every step of the cache state machine keeps the invariant (area cache = file contents at the "
+                "wrapped/reflected position, cell cache = prepared stencil of that cell) and every height equals the state-free heightSpec as the same "
+                "term, in all cache modes (induction over histories); stencil indices stay in bounds; the interior cubic table reproduces every cubic and "
+                "solves the weighted normal equations. Hypotheses (cell location inside the raster, cache window within one period) are checked by the "
+                "driver on every query/CacheArea of the run. The stateful model executes every sampled history against the implementation; "
+                "bit-for-bit independence of history and cache mode is also checked implementation-vs-implementation."),
+    level_note=("cubic tables and table sizes regenerated from Geoid.cpp each run; hand-written model of height / rawval / CacheArea; iostream header parsing "
+                "is modelled only structurally (the harness composes the header from fields)"),
+    technique="Lean 4 proof by induction over operation histories (refinement to a state-free spec) + exact model/implementation correspondence",
+    assumptions=["floating-point location stays inside the raster: checked per query, not proved (needs monotonicity of round53)"],
+)
